@@ -156,18 +156,23 @@ def run(tier: str) -> int:
     wd = common.workdir("C12")
     try:
         from metador_core.plugins import schemas
-        out = wd / "cases.json"
-        cfg = cfg_text("Spec", constants={"Prims": set(PRIMS), "MaxFields": 1 if quick else 2, "Stride": 1 if quick else 97},
-                       invariants=["RoundTrip", "SecondRoundTripStable", "ConstsAlwaysDumped", "ConstsIgnoredOnLoad",
-                                   "NoneReadsAsDefault"], postcondition="Export")
-        r = run_tlc("SchemaCodec", cfg, wd, env={"OUT_FILE": str(out)}, timeout=3400)
-        rep.add_tlc("codec_model", r, prims=PRIMS, max_fields=1 if quick else 2, exhaustive=True)
-        if r.violated:
-            rep.violation(f"TLC: {r.violated} violated in the SchemaCodec model", {"tlc_out": r.out[-4000:]})
-        elif not r.ok or not out.exists():
-            rep.machinery(f"TLC failed on SchemaCodec: {r.error or r.out[-600:]}")
-            return rep.finish()
-        cases = json.loads(out.read_text())
+        configs = [("codec_model", set(PRIMS), 1, 1)]
+        if not quick:   # two fields per class over five kinds (one per encoding family)
+            configs.append(("codec_model_two_fields", {"bool", "int", "str", "duration", "quantity"}, 2, 31))
+        cases = []
+        for name, prims, nf, stride in configs:
+            out = wd / f"cases_{name}.json"
+            cfg = cfg_text("Spec", constants={"Prims": prims, "MaxFields": nf, "Stride": stride},
+                           invariants=["RoundTrip", "SecondRoundTripStable", "ConstsAlwaysDumped", "ConstsIgnoredOnLoad",
+                                       "NoneReadsAsDefault"], postcondition="Export")
+            r = run_tlc("SchemaCodec", cfg, wd, env={"OUT_FILE": str(out)}, timeout=3400, tag="_" + name)
+            rep.add_tlc(name, r, prims=sorted(prims), max_fields=nf, export_stride=stride, exhaustive=True)
+            if r.violated:
+                rep.violation(f"TLC: {r.violated} violated in the SchemaCodec model", {"tlc_out": r.out[-4000:]})
+            elif not r.ok or not out.exists():
+                rep.machinery(f"TLC failed on SchemaCodec ({name}): {r.error or r.out[-600:]}")
+                return rep.finish()
+            cases += json.loads(out.read_text())
         hk = hashable_kinds()
         n = skipped = 0
         for case in cases:
